@@ -111,7 +111,7 @@ def arith_items(rng, n):
             items.append((op, fxm, cx, None, fym, cy, None, rng.choice(['operator', 'numpy']), {'op_method': 'repr', '_build': 'intval'})); continue
         if rng.random() < 0.2:
             cx = cx + codes(fxm) + codes(fxm); cy = cy + codes(fym) + codes(fym)
-            items.append((op, fxm, cx, (3,), fym, cy, (3,), rng.choice(['operator', 'func']), {}))
+            items.append((op, fxm, cx, (3,), fym, cy, (3,), rng.choice(['operator', 'func']), {'_build': 'rewritten'} if rng.random() < 0.5 else {}))
         else:
             cfg = {'_build': rng.choice(['indexed', 'iterated'])} if rng.random() < 0.45 else {}
             if not cfg and rng.random() < 0.3:
